@@ -1019,6 +1019,22 @@ func (interp *Interpreter) cfg(root *node, sc *scope, importPath, pkgName string
 			for t.cat == linkedT {
 				t = t.val
 			}
+			if t.cat != funcT && t.cat != genericT && t.cat != structT {
+				// Not a generic instantiation: the operand must support indexing.
+				rt := t.TypeOf()
+				switch rt.Kind() {
+				case reflect.Array, reflect.Map, reflect.Slice, reflect.String:
+				case reflect.Ptr:
+					if rt.Elem().Kind() != reflect.Array {
+						err = n.cfgErrorf("invalid operation: cannot index %s", t.id())
+					}
+				default:
+					err = n.cfgErrorf("invalid operation: cannot index %s", t.id())
+				}
+				if err != nil {
+					break
+				}
+			}
 			switch t.cat {
 			case ptrT:
 				n.typ = t.val
@@ -1038,6 +1054,10 @@ func (interp *Interpreter) cfg(root *node, sc *scope, importPath, pkgName string
 			case funcT:
 				// A function indexed by a type means an instantiated generic function.
 				c1 := n.child[1]
+				if !isGeneric(t) {
+					err = n.cfgErrorf("invalid operation: cannot index %s", t.id())
+					break
+				}
 				if !c1.isType(sc) {
 					n.typ = t
 					return
@@ -1083,6 +1103,10 @@ func (interp *Interpreter) cfg(root *node, sc *scope, importPath, pkgName string
 			default:
 				n.typ = t.val
 			}
+			if n.typ == nil {
+				err = n.cfgErrorf("invalid operation: cannot index %s", t.id())
+				break
+			}
 			n.findex = sc.add(n.typ)
 			typ := t.TypeOf()
 			if typ.Kind() == reflect.Map {
@@ -1109,7 +1133,9 @@ func (interp *Interpreter) cfg(root *node, sc *scope, importPath, pkgName string
 				err = n.cfgErrorf("type is not an array, slice, string or map: %v", t.id())
 			}
 
-			err = check.index(n.child[1], l)
+			if err == nil {
+				err = check.index(n.child[1], l)
+			}
 
 		case blockStmt:
 			wireChild(n)
